@@ -242,6 +242,29 @@ def run_C20(chk):
     if exe is None or not getattr(chk, 'driver_ok', False):
         return chk.finish()
     good = run_sched_part(chk, 'C20', exe, scale)
+    # two loads of one name, for names of every length class and shape: the factory is asked once, with exactly that name
+    fl = []
+    uniq = 0
+    shapes = [b'Probe/%d', b'file:Probe/%d', b'file:/abs/probe%d', b':Probe%d', b'Probe%d\x00tail', b'P%d', b'file:Fixed/UTC+01:00:%02d' , b'Fixed/UTC+01:00:%02d', b'UTC', b'UTC0',
+              b'libc:nope%d', b'Fixed/UTC+00:60:%02d', b'Fixed/UTC+24:00:0%d']
+    for sh in shapes:
+        uniq += 1
+        fl.append(sh % (uniq % 60) if b'%' in sh else sh)
+    for ln in list(range(1, 70)) + [95, 96, 100, 127, 128, 129, 200, 1000]:
+        uniq += 1
+        base = b'L%d/' % uniq
+        fl.append((base + b'x' * ln)[:max(ln, len(base))] if ln >= len(base) else (b'q' * ln + b'%d' % uniq)[:max(ln, 1)] + b'')
+    fl = list(dict.fromkeys(fl))
+    lines_f = ['facnames ' + hx(nm) for nm in fl]
+    mo_f = run_model(lines_f); io_f = run_lines(exe, lines_f, timeout=600)
+    for l, nm, a, b in zip(lines_f, fl, mo_f, io_f):
+        chk.cov['evaluations'] += 1
+        if nm.startswith(b'libc:'):
+            continue            # the C-library zones do not go through the factory at all
+        if b != a:
+            chk.report('two loads of the name %r: the factory was consulted `%s`; once, with exactly that name (never for UTC / fixed-offset names), then not again, gives `%s`' % (nm, b, a),
+                       {'op': l, 'implementation': b, 'model': a}, sig='facnames')
+        else: good += 1
     # names that are already loaded (or have already failed) are loaded again by several threads while the zone map's
     # mutex is kept busy: the factory must not see any of them again
     env = dict(os.environ); env.update({'TZDIR': os.path.join(REPO, 'testdata/zoneinfo')}); env.update(SAN_ENV)
@@ -342,7 +365,7 @@ def run_C19(chk):
     tzs = [None, b'', b'X', b':X', b'localtime', b':localtime', b'No/Such', b'::X', b'America/New_York']
     lts = [None, os.path.join(root, 'lt').encode(), os.path.join(root, 'nope').encode()]
     names = [b'America/New_York', b'Lisbon', os.path.join(root, 'abs/Kolkata').encode(), b'file:Lisbon', b'file:' + os.path.join(root, 'abs/Kolkata').encode(),
-             b'', b'adir', b'truncated', b'trunc-footer-1', b'trunc-footer-all', b'trunc-footer-mid', b'leap', b'leap-slim', b'empty', b':Lisbon', b'UTC', b'UTC0', b'Fixed/UTC+05:30:00', b'Fixed/UTC+25:00:00', b'Fixed/UTC+00:60:00', b'Fixed/UTC+01:00:0\x00', b'Fixed/UTC+0\x00:00:00', b'Fixed/UTC-00:90:00', b'Fixed/UTC+23:59:60', b'Fixed/UTC-23:59:61', b'Fixed/UTC+00:00:99', b'No/Such', b'file:', b'../zi/Lisbon',
+             b'', b'adir', b'truncated', b'trunc-footer-1', b'trunc-footer-all', b'trunc-footer-mid', b'leap', b'leap-slim', b'empty', b':Lisbon', b'UTC', b'UTC0', b'Fixed/UTC+05:30:00', b'Fixed/UTC+25:00:00', b'Fixed/UTC-24:00:00', b'Fixed/UTC+24:00:00', b'Fixed/UTC-24:00:01', b'file:/America/New_York', b'file:/Lisbon', b'file:/X', b'Fixed/UTC+00:60:00', b'Fixed/UTC+01:00:0\x00', b'Fixed/UTC+0\x00:00:00', b'Fixed/UTC-00:90:00', b'Fixed/UTC+23:59:60', b'Fixed/UTC-23:59:61', b'Fixed/UTC+00:00:99', b'No/Such', b'file:', b'../zi/Lisbon',
              b'America/New_York\x00junk']
     lines = ['fsfile %s %s' % (hx(p), hx(d)) for p, d in files.items()]
     meta = [None] * len(lines)
@@ -358,7 +381,7 @@ def run_C19(chk):
     absk = os.path.join(root, 'abs/Kolkata').encode()
     for first, second in ((b'Lisbon', b'file:Lisbon'), (b'file:Lisbon', b'Lisbon'), (absk, b'file:' + absk), (b'file:' + absk, absk),
                           (b'Fixed/UTC+05:30:00', b'file:Fixed/UTC+05:30:00'), (b'UTC', b'file:UTC'), (b'Lisbon', b':Lisbon'), (b'Lisbon', b'Lisbon\x00junk'),
-                          (b'America/New_York', b'file:America/New_York'), (b'No/Such', b'file:No/Such'), (b'leap-slim', b'file:leap-slim'), (b'X', b'file:X')):
+                          (b'America/New_York', b'file:America/New_York'), (b'UTC0', b'UTC0'), (b'Fixed/UTC+00:00:00', b'Fixed/UTC-00:00:00'), (b'UTC0', b'UTC'), (b'No/Such', b'file:No/Such'), (b'leap-slim', b'file:leap-slim'), (b'X', b'file:X')):
         lines.append('resolve %s ~ ~ load %s' % (opt(zd), hx(first))); meta.append(('load', zd, None, None, first))
         lines.append('resolve %s ~ ~ keep %s' % (opt(zd), hx(second))); meta.append(('load', zd, None, None, second))
         lines.append('resolve %s ~ ~ keep %s' % (opt(zd), hx(first))); meta.append(('load', zd, None, None, first))
